@@ -5,7 +5,7 @@ from rrect_common import *
 RULE = ('rrect correspondence: rr_confine (CornerRadii::confine via confine_radii()) on random radii/sizes: small (0..12 / 0..8), medium, and up to 65535 '
         '(radius x side stays below 2^32, the u32 product of the code), incl. several sides overflowing with different ratios. '
         'rrect search on the implementation: p_rr_builder (construction API vs struct literals, see the C05 part), p_rr_confine (sides fit, fitting radii unchanged, idempotent, never grows, contains() unchanged by '
-        'confine_radii()), p_rr_zero (zero radii = Rectangle: contains over box+2 and points()), p_rr_half (even sides, radii = half sides = Ellipse: all '
+        'confine_radii()), p_rr_zero, p_rr_half, p_rr_contig, p_rr_band judge the shape as EVERY observation sees it (contains() over box+margin, points(), fill-only styled draw() on a native and on a draw_iter-only target, fill-only pixels()); shapes with unequal corner heights/widths on the same edge over-represented. p_rr_zero (zero radii = Rectangle: contains over box+2 and points()), p_rr_half (even sides, radii = half sides = Ellipse: all '
         'ra,rb in 0..16 exhaustively + random up to 60; oversized equal radii are confined back), p_rr_contig (rows and columns of contains() contiguous), '
         'p_rr_band (corner pixels vs the ideal quarter ellipse, half-pixel band).')
 PARTIAL = []
@@ -26,6 +26,27 @@ def conf(rng):
     w, h = rng.choice([0, 1, rng.randrange(65536), rng.randrange(300)]), rng.choice([0, 1, rng.randrange(65536), rng.randrange(300)])
     m = rng.choice([300, 65535])
     return [coord(rng, True), coord(rng, True), w, h] + radii(rng, m)
+
+
+def uneven(rng):
+    """corner heights (and widths) that differ on the same edge: right taller than left, bottom-left vs bottom-right, ..."""
+    w, h = rng.randrange(4, 41), rng.randrange(4, 41)
+    lo = lambda m: rng.randrange(0, max(1, m // 4) + 1)
+    hi = lambda m: rng.randrange(m // 3, m + 1)
+    k = rng.randrange(6)
+    if k == 0:      # right corners taller than the left ones
+        r = [hi(w // 2), lo(h), hi(w // 2), hi(h // 2), hi(w // 2), hi(h // 2), hi(w // 2), lo(h)]
+    elif k == 1:    # left taller than right
+        r = [hi(w // 2), hi(h // 2), hi(w // 2), lo(h), hi(w // 2), lo(h), hi(w // 2), hi(h // 2)]
+    elif k == 2:    # only the top right corner rounded
+        r = [0, 0, hi(w), hi(h), 0, 0, 0, 0]
+    elif k == 3:    # only the bottom right corner rounded
+        r = [0, 0, 0, 0, hi(w), hi(h), 0, 0]
+    elif k == 4:    # bottom corners wider on one side, top on the other
+        r = [hi(w // 2), hi(h // 2), lo(w), hi(h // 2), hi(w // 2), hi(h // 2), lo(w), hi(h // 2)]
+    else:           # diagonal pair tall, the other pair flat
+        r = [hi(w // 2), hi(h), lo(w), lo(h), hi(w // 2), hi(h), lo(w), lo(h)]
+    return [rng.randrange(-20, 21), rng.randrange(-20, 21), w, h] + r
 
 
 def cases(tier, rng):
@@ -55,10 +76,14 @@ def search(tier, rng):
     for w in range(13):
         for h in range(13):
             yield J('p_rr_zero', 2, -5, w, h)
+    # regression shape of seeded C18-D: top right corner taller than top left
+    yield J('p_rr_band', 0, 0, 20, 20, 3, 2, 8, 9, 0, 0, 0, 0)
+    yield J('p_rr_contig', 0, 0, 20, 20, 3, 2, 8, 9, 0, 0, 0, 0)
     n = 6000 if tier == 'quick' else 150000
     for _ in range(n):
         yield J('p_rr_confine', *conf(rng))
-        g = small(rng) if rng.random() < 0.6 else medium(rng)
+        k = rng.random()
+        g = uneven(rng) if k < 0.35 else small(rng) if k < 0.75 else medium(rng)
         yield J('p_rr_contig', *g)
         yield J('p_rr_band', *g)
     for _ in range(n // 6):
